@@ -63,6 +63,20 @@ def collect(h):
         raise h.Missing(f"{rel}: storeEventBuildError: original event name expression not recognised")
     items.append(("c02_reencode_orig_name", "bool", orig, rel + " storeEventBuildError"))
 
+    # loadEventBuildError: an original event name that ParseQName rejects makes the row undecodable (strict)
+    # or is kept as it is split at the first dot (tolerant)
+    body = h.func_body(rel, r"^func loadEventBuildError\(", "loadEventBuildError")
+    m = re.search(r"if\s+ev\.buildErr\.qName,\s*err\s*=\s*appdef\.ParseQName\(qName\);\s*err\s*!=\s*nil\s*\{(.*?)\n\t\}", body, re.S)
+    if not m:
+        raise h.Missing(f"{rel}: loadEventBuildError: parsing of the original event name not recognised")
+    if re.search(r"return\s+enrichError\(err", m.group(1)):
+        strict = "true"
+    elif re.search(r"strings\.Cut\(qName,\s*appdef\.QNameQualifierChar\)", m.group(1)) and "return" not in m.group(1):
+        strict = "false"
+    else:
+        raise h.Missing(f"{rel}: loadEventBuildError: handling of an unparsable original event name not recognised")
+    items.append(("c02_errname_parse_strict", "bool", strict, rel + " loadEventBuildError"))
+
     rel = "pkg/istructsmem/internal/utils/bytes.go"
     mx = h.go_int(h.find(rel, r"const\s+maxLen\s+uint16\s*=\s*(0x[0-9A-Fa-f]+|[0-9]+)", "WriteShortString maxLen").group(1))
     items.append(("c02_short_string_max", "N", str(mx), rel))
